@@ -676,7 +676,10 @@ Fixpoint unmarshal_seq (r : pkt) (ds : list sx) (racc : list sx) : list sx :=
    (4 (type...) (msg...))      ExpectMessage(types...) -> (0 index type xpayload) | (1 8)
    (6 kind tid init (xdata...)) one receiver -- New<kind>(tid) for init = (), the constructed packet
                       for init = (pkt) -- decodes the payloads one after the other
-                      -> (0 (<packet obs>...)), ending with the first failure *)
+                      -> (0 (<packet obs>...)), ending with the first failure
+   (7 kind tid mtype (pkt...) xbody)  a grammar-derived command body: UnmarshalBinary on New<kind>(tid),
+                      and DecodeMessage of it carried in message type mtype on an endpoint that
+                      has written the pkts -> (0 <packet obs> <packet obs>) *)
 Definition run_c03 (c : sx) : sx :=
   match c with
   | SL [SZ 0%Z; p] =>
@@ -719,6 +722,14 @@ Definition run_c03 (c : sx) : sx :=
       match r0 with
       | Some r => s_ok [SL (unmarshal_seq r ds [])]
       | None => bad_case
+      end
+  | SL [SZ 7%Z; SZ k; SZ tid; SZ mt; SL pre; SB body] =>
+      match new_of_kind (Z.to_N k) (Z.to_N tid), pkts_of_sx pre with
+      | Some r, Some ps =>
+          let t := fold_left on_packet_written ps [] in
+          s_ok [obs_pkt (unmarshal r body);
+                obs_pkt (fst (decode_message t (Z.to_N mt) (carried (Z.to_N mt) body)))]
+      | _, _ => bad_case
       end
   | SL [SZ 4%Z; SL tys; SL ms] =>
       match msgs_of_sx ms with
